@@ -124,6 +124,8 @@ pub struct PReload {
     pub duration: f64,
     pub times: Vec<(f64, f64)>,
     pub tag: Option<String>,
+    /// shared reload resource (fleet.resources)
+    pub resource_id: Option<String>,
 }
 
 #[derive(Clone, Debug)]
@@ -189,6 +191,8 @@ pub struct PProblem {
     pub objectives: Option<Value>,
     /// plan.clustering, rendered as is
     pub clustering: Option<Value>,
+    /// fleet.resources: (id, capacity) of shared reload resources
+    pub resources: Vec<(String, Vec<i64>)>,
 }
 
 fn times_json(times: &[(f64, f64)]) -> Value {
@@ -316,6 +320,9 @@ impl PProblem {
                                     if let Some(t) = &r.tag {
                                         ro.insert("tag".into(), json!(t));
                                     }
+                                    if let Some(id) = &r.resource_id {
+                                        ro.insert("resourceId".into(), json!(id));
+                                    }
                                     Value::Object(ro)
                                 })
                                 .collect();
@@ -385,7 +392,11 @@ impl PProblem {
         }
         let mut root = Map::new();
         root.insert("plan".into(), Value::Object(plan));
-        root.insert("fleet".into(), json!({"vehicles": vehicles, "profiles": profiles.iter().map(|p| json!({"name": p})).collect::<Vec<_>>()}));
+        let mut fleet = json!({"vehicles": vehicles, "profiles": profiles.iter().map(|p| json!({"name": p})).collect::<Vec<_>>()});
+        if !self.resources.is_empty() {
+            fleet["resources"] = json!(self.resources.iter().map(|(id, cap)| json!({"type": "reload", "id": id, "capacity": cap})).collect::<Vec<_>>());
+        }
+        root.insert("fleet".into(), fleet);
         if let Some(o) = &self.objectives {
             root.insert("objectives".into(), o.clone());
         }
